@@ -19,14 +19,7 @@ GHOST_IMPL["OCCN"] = _occn
 P = ("C01",)
 
 
-@contract("Perm.occurrences_in", params={"self": "Perm", "patt": "Perm"}, returns="gen", props=P, assumed=True)
-class OccurrencesIn:
-    # ASSUMED (bounded layer C01.occurrences decides it): the listing has OCCN(self, patt) elements
-    def requires(c, self, patt):
-        return c.and_(c.is_perm(self), c.is_perm(patt))
-
-    def ensures(c, self, patt, result):
-        return c.len(result) == c.ghost("OCCN", self, patt)
+# Perm.occurrences_in: verified, see contracts/occurrences.py (callers use its derived fact  len(result) == OCCN)
 
 
 @contract("MeshPatt.occurrences_in", params={"self": "Mesh", "patt": "Perm"}, returns="gen", props=("C03",), assumed=True)
